@@ -783,7 +783,85 @@ def gen_roundtrip_noisy(rng, tier, shard, nshards, boost):
         yield {"intervals": ivs}
 
 
+# ---- re-expressing the SAME annotation objects several times (histories)
+def _out(r):
+    iv, l = r
+    return [np.asarray(iv).tolist(), None if l is None else list(l)]
+
+
+def check_adjust_reuse(inp):
+    """the annotation that is re-expressed is preserved: adjusting the same array / label list objects to a sequence of
+    ranges gives, at every step, what adjusting a fresh copy of the original annotation to that range gives"""
+    ivs = [tuple(x) for x in inp["intervals"]]
+    labs = list(inp["labels"])
+    shared_iv, shared_l = arr(ivs), list(labs)
+    for k, (a, b) in enumerate(inp["calls"]):
+        def run(iv, l):
+            try:
+                return ("ok", _out(mir_eval.util.adjust_intervals(iv, l, a, b, START, END)))
+            except Exception as e:  # noqa: BLE001
+                return ("raised", type(e).__name__)
+        got = run(shared_iv, shared_l)
+        want = run(arr(ivs), list(labs))
+        if got != want:
+            return ("call %d of %d on the same annotation objects, range [%r, %r]: got %r; a fresh copy of the "
+                    "annotation gives %r" % (k + 1, len(inp["calls"]), a, b, got, want))
+    return None
+
+
+def gen_adjust_reuse(rng, tier, shard, nshards, boost):
+    n = (150 if tier == "quick" else 1500) * boost
+    k = 0
+    while k < n:
+        ivs, labs = rand_annotation(rng)
+        calls = []
+        for _ in range(rng.choice([2, 2, 3])):
+            a, _x = crop_point(rng, ivs, "min")
+            b, _x = crop_point(rng, ivs, "max")
+            if rng.random() < 0.3:
+                a = ivs[0][0]              # a range that starts exactly where the annotation starts
+            if _proper(ivs, a, b):
+                calls.append([None if a is None else F(a), None if b is None else F(b)])
+        if len(calls) < 2:
+            continue
+        k += 1
+        d = _adjust_input(ivs, labs, None, None)
+        yield {"intervals": d["intervals"], "labels": d["labels"], "calls": calls}
+
+
+def check_events_reuse(inp):
+    ev, labs = list(inp["events"]), list(inp["labels"])
+    shared_t, shared_l = np.array(ev, dtype=float), list(labs)
+    for k, (a, b) in enumerate(inp["calls"]):
+        def run(t, l):
+            try:
+                return ("ok", _out(mir_eval.util.adjust_events(t, l, a, b)))
+            except Exception as e:  # noqa: BLE001
+                return ("raised", type(e).__name__)
+        got = run(shared_t, shared_l)
+        want = run(np.array(ev, dtype=float), list(labs))
+        if got != want:
+            return ("call %d of %d on the same event objects, range [%r, %r]: got %r; a fresh copy gives %r"
+                    % (k + 1, len(inp["calls"]), a, b, got, want))
+    return None
+
+
+def gen_events_reuse(rng, tier, shard, nshards, boost):
+    for d in gen_adjust_events(rng, tier, shard, nshards, boost):
+        ev = d["events"]
+        cand = [None] + ev + [ev[0] - 1, ev[-1] + 1, (ev[0] + ev[-1]) / 2]
+        calls = [[d["t_min"], d["t_max"]]]
+        for _ in range(2):
+            a, b = rng.choice(cand), rng.choice(cand)
+            if a is None or b is None or a <= b:
+                calls.append([a, b])
+        if len(calls) >= 2 and rng.random() < 0.25:
+            yield {"events": ev, "labels": d["labels"], "calls": calls}
+
+
 CHECKERS = {
+    "util.adjust_intervals:reuse": check_adjust_reuse,
+    "util.adjust_events:reuse": check_events_reuse,
     "util.intervals_roundtrip_noisy": check_roundtrip_noisy,
     "util.adjust_intervals": check_adjust_rest,
     "util.adjust_intervals:posdur": check_adjust_posdur,
@@ -795,6 +873,8 @@ CHECKERS = {
     "util.boundaries_roundtrip": check_roundtrip,
 }
 ORACLES = {
+    "util.adjust_intervals:reuse": gen_adjust_reuse,
+    "util.adjust_events:reuse": gen_events_reuse,
     "util.intervals_roundtrip_noisy": gen_roundtrip_noisy,
     "util.adjust_intervals": gen_adjust,
     "util.adjust_intervals:posdur": gen_adjust,
